@@ -145,7 +145,7 @@ const prelude = `(set-option :produce-models true)
 (declare-fun sl_len (Int) Int)
 (declare-fun sl_cap (Int) Int)
 (assert (and (= (sl_arr 0) 0) (= (sl_off 0) 0) (= (sl_len 0) 0) (= (sl_cap 0) 0)))
-(define-fun slwf ((s Int)) Bool (and (>= (sl_arr s) 0) (>= (sl_off s) 0) (>= (sl_len s) 0) (>= (sl_cap s) (sl_len s)) (=> (= (sl_arr s) 0) (= (sl_cap s) 0)) (<= (sl_cap s) 4611686018427387904)))
+(define-fun slwf ((s Int)) Bool (and (>= (sl_arr s) 0) (>= (sl_off s) 0) (>= (sl_len s) 0) (>= (sl_cap s) (sl_len s)) (=> (= (sl_arr s) 0) (= (sl_cap s) 0)) (<= (sl_cap s) 281474976710656)))
 (declare-fun itype (Int) Int)
 (declare-fun ipay (Int) Int)
 (declare-fun mkiface (Int Int) Int)
